@@ -20,6 +20,7 @@ import (
 	"strconv"
 	"strings"
 	"sync"
+	"sync/atomic"
 	"time"
 )
 
@@ -99,6 +100,9 @@ var watch struct {
 
 var hangLimit = 300 * time.Second
 
+// inConcurrent: the concurrent phase is running (harness-side shared scratch objects are not used then)
+var inConcurrent atomic.Bool
+
 // watchOp announces a call into the repository; the returned func marks its return.
 func watchOp(op J) func() {
 	watch.mu.Lock()
@@ -177,6 +181,7 @@ type report struct {
 	Samples            []any          `json:"samples"`
 	Panics             int            `json:"panics"`
 	Reevaluated        int            `json:"reevaluated"`
+	ConcurrentEvaluations int         `json:"concurrent_evaluations"`
 	Unstable           []any          `json:"unstable"` // ops whose result changed when evaluated again at the end of the run
 }
 
@@ -250,14 +255,17 @@ func main() {
 	// are functions of their arguments, so a result that depends on what was called before is a defect
 	// (package-level buffers, pools, caches) even if each single evaluation looks right
 	type kept struct {
-		op  J
-		res []byte
+		op   J
+		res  []byte
+		fast bool // the first evaluation took under 50 ms (eligible for the concurrent phase)
 	}
 	var reservoir []kept
 	nSeen := 0
 	handle := func(c Case) {
 		line := marshal(c.Op)
+		t0 := time.Now()
 		res := normalise(runOp(c.Op))
+		took := time.Since(t0)
 		rep.Evaluations++
 		for _, t := range c.Tags {
 			rep.Tags[t]++
@@ -316,7 +324,7 @@ func main() {
 		}
 		if first && stableOp(jStr(opN["op"])) && k != "panic" {
 			nSeen++
-			e := kept{c.Op, marshal(stripPrivate(res))}
+			e := kept{c.Op, marshal(stripPrivate(res)), took < 50*time.Millisecond}
 			if len(reservoir) < 400 {
 				reservoir = append(reservoir, e)
 			} else if j := int(h[0])<<8 | int(h[1]); j%nSeen < 400 && nSeen > 0 {
@@ -374,14 +382,87 @@ func main() {
 		}
 	}
 	if *replay == "" {
+		// judge a result that differs from the first evaluation of the same op: whatever the monitors say about it is
+		// a violation found with this op as the replay (plus the note how it was reached)
+		judge := func(op J, full any, how string) {
+			opN := normalise(op).(map[string]any)
+			for _, m := range monitors[*prop] {
+				v, _ := m(opN, full)
+				for i := range v {
+					v[i].Desc += " [" + how + "]"
+				}
+				rep.Violations = append(rep.Violations, v...)
+			}
+		}
 		for _, e := range reservoir {
-			again := marshal(stripPrivate(normalise(runOp(e.op))))
+			full := normalise(runOp(e.op))
+			again := marshal(stripPrivate(full))
 			rep.Reevaluated++
 			if !bytes.Equal(again, e.res) && len(rep.Unstable) < 5 {
 				var a, b any
 				json.Unmarshal(e.res, &a)
 				json.Unmarshal(again, &b)
 				rep.Unstable = append(rep.Unstable, J{"op": e.op, "first": a, "again": b})
+				judge(e.op, full, "result of evaluating the op again at the end of the run; the first evaluation gave a different result")
+			}
+		}
+		// The concurrent phase.  Every callback and codec under test may be called from several goroutines at once
+		// (libocr requires plugin functions to be thread-safe; a node runs one plugin per feed / DON in one process).
+		// The quick cases of the sample are evaluated again from 8 goroutines at the same time; each result must be
+		// the one the op gave when it ran alone.
+		var fast []kept
+		for _, e := range reservoir {
+			if e.fast {
+				fast = append(fast, e)
+			}
+		}
+		if len(fast) > 0 && os.Getenv("VERIF_NO_CONCURRENT") == "" {
+			inConcurrent.Store(true)
+			budget := 15 * time.Second
+			if *tier == "thorough" {
+				budget = 60 * time.Second
+			}
+			deadline := time.Now().Add(budget)
+			type diff struct {
+				e    kept
+				full any
+			}
+			var mu sync.Mutex
+			var diffs []diff
+			var wg sync.WaitGroup
+			var n atomic.Int64
+			for w := 0; w < 8; w++ {
+				wg.Add(1)
+				go func(w int) {
+					defer wg.Done()
+					for round := 0; time.Now().Before(deadline); round++ {
+						for i := range fast {
+							e := fast[(i*7+w*53+round)%len(fast)]
+							full := normalise(runOp(e.op))
+							n.Add(1)
+							if !bytes.Equal(marshal(stripPrivate(full)), e.res) {
+								mu.Lock()
+								if len(diffs) < 5 {
+									diffs = append(diffs, diff{e, full})
+								}
+								mu.Unlock()
+							}
+							if !time.Now().Before(deadline) {
+								return
+							}
+						}
+					}
+				}(w)
+			}
+			wg.Wait()
+			inConcurrent.Store(false)
+			rep.ConcurrentEvaluations = int(n.Load())
+			for _, d := range diffs {
+				var a, b any
+				json.Unmarshal(d.e.res, &a)
+				json.Unmarshal(marshal(stripPrivate(d.full)), &b)
+				rep.Unstable = append(rep.Unstable, J{"op": d.e.op, "first": a, "again": b, "concurrent": true})
+				judge(d.e.op, d.full, "result of evaluating the op while 7 other goroutines evaluated other cases of the run; alone it gave a different result")
 			}
 		}
 	}
